@@ -26,7 +26,7 @@ def plan(tier, seed):
 
 def thresholds(tier):
   t = {"types_built": 300, "values_checked": 5000, "layout_comparisons": 5000, "aliasing_probes": 20000,
-       "types_with_list_field": 100, "types_nested": 100, "hash_comparisons": 1000, "same_name_redeclarations": 200, "hash_after_field_update_probes": 2000, "ctor_arg_aliasing_probes": 5000, "histories_checked": 1000, "history_flips_of_pending_leaves": 2000, "ragged_array_declarations_refused": 100, "list_args_given_as_ints": 60, "ctor_container_arg_aliasing_probes": 1000, "intra_instance_aliasing_probes": 1500, "falsy_struct_argument_probes": 100}
+       "types_with_list_field": 100, "types_nested": 100, "hash_comparisons": 1000, "same_name_redeclarations": 200, "hash_after_field_update_probes": 2000, "ctor_arg_aliasing_probes": 5000, "histories_checked": 1000, "history_flips_of_pending_leaves": 2000, "ragged_array_declarations_refused": 100, "list_args_given_as_ints": 60, "ctor_container_arg_aliasing_probes": 1000, "intra_instance_aliasing_probes": 1500, "falsy_struct_argument_probes": 100, "repeated_from_bits_probes": 100, "cross_class_assignments": 200}
   if tier == "thorough":
     t = {k: v * 15 for k, v in t.items()}
   return t
@@ -636,6 +636,52 @@ def check_falsy_struct_arg(sh, rng, case):
     sh.violation("falsy-struct-argument-replaced-by-the-default", {"hook": kind, "expected_packed": hex(exp), "wrong": wrong, "value": repr(v)}, case=("falsy", case))
 
 
+def check_unpack_fresh_and_cross_class(sh, rng, case):
+  """(a) from_bits called twice with an equal packed value gives two independent objects: changing the first (field @=, list
+  element, <<= + flip) leaves the second and a third, later, call alone;  (b) @= / <<= from a value of ANOTHER bitstruct class of
+  the same width (same field names in another order): refused - or both operators store the assigned BIT PATTERN"""
+  from pymtl3.datatypes import mk_bits, mk_bitstruct
+  tag = f"{sh.idx}_{case}"
+  w = rng.choice([2, 4, 8])
+  Hdr = mk_bitstruct(f"UHdr_{tag}", {"src": mk_bits(w), "dst": mk_bits(w)})
+  Pkt = mk_bitstruct(f"UPkt_{tag}", {"hdr": Hdr, "pay": [mk_bits(w)] * 2})
+  n = Pkt.nbits; b = rng.getrandbits(n)
+  first = Pkt.from_bits(mk_bits(n)(b))
+  how = rng.choice(["field", "list", "ff"])
+  nv = (int(first.hdr.dst) + 1) % (1 << w)
+  if how == "field": first.hdr.dst @= nv
+  elif how == "list": first.pay[1] @= (int(first.pay[1]) + 1) % (1 << w)
+  else: first.hdr.dst <<= nv; first.hdr.dst._flip()
+  second = Pkt.from_bits(mk_bits(n)(b))
+  sh.count("repeated_from_bits_probes")
+  if second is first or int(second.to_bits()) != b:
+    sh.violation("from_bits-of-an-equal-value-returns-an-object-changed-elsewhere", {"packed": hex(b), "changed_by": how, "second_unpack_packs_to": hex(int(second.to_bits())),
+                 "same_object": second is first}, case=("unpack", case)); return
+  r = Pkt(); r @= mk_bits(n)(b)
+  if int(r.to_bits()) != b:
+    sh.violation("from_bits-of-an-equal-value-returns-an-object-changed-elsewhere", {"packed": hex(b), "how": "struct @= Bits after an earlier unpacked value was changed",
+                 "got": hex(int(r.to_bits()))}, case=("unpack-imatmul", case)); return
+  # (b)
+  A = mk_bitstruct(f"XA_{tag}", {"tag": mk_bits(w), "len": mk_bits(w)})
+  B = mk_bitstruct(f"XB_{tag}", {"len": mk_bits(w), "tag": mk_bits(w)})
+  va, vb = rng.getrandbits(w), rng.getrandbits(w)
+  if va == vb: vb = (va + 1) % (1 << w)
+  src = B(len=va, tag=vb); exp = int(src.to_bits())
+  got = {}
+  for op in ("@=", "<<="):
+    r = A()
+    sh.count("cross_class_assignments")
+    try:
+      if op == "@=": r @= src
+      else: r <<= src; r._flip() if hasattr(r, "_flip") else None
+    except (TypeError, ValueError, AttributeError, AssertionError):
+      sh.count("cross_class_assignments_refused"); continue
+    got[op] = int(r.to_bits())
+  if any(v != exp for v in got.values()):
+    sh.violation("assignment-from-another-struct-class-does-not-store-its-bit-pattern", {"source": repr(src), "source_packed": hex(exp), "stored": {k: hex(v) for k, v in got.items()},
+                 "target_class": "A(tag, len)", "source_class": "B(len, tag)", "field_width": w}, case=("crossclass", case))
+
+
 def run_shard(sh):
   rng = sh.rng("types")
   uid = [0]
@@ -643,6 +689,7 @@ def run_shard(sh):
     check_array_decl(sh, sh.rng("arr", case), case)
     check_foreign_struct_arg(sh, sh.rng("foreign", case), case)
     check_falsy_struct_arg(sh, sh.rng("falsy", case), case)
+    check_unpack_fresh_and_cross_class(sh, sh.rng("unpack", case), case)
   for case in range(sh.params["types"]):
     r = sh.rng("t", case)
     if sh.only is not None and str(case) != str(sh.only).strip('"'):
